@@ -230,6 +230,16 @@ let () =
     (match split_ws l with
      | [] -> print_string ""
      | "idx" :: s :: _ -> print_string (do_idx s)
+     | "guard" :: s :: _ ->
+        let (r1, a1) = attr_setstacksize (zi 777) (zs s) in
+        Printf.printf "guard set %s %s setstack %s %s" (sz r1) (sz a1) (sz r1) (sz a1)
+     | "create" :: s :: _ ->
+        (* the stack side of myth_create_ex with an attribute whose stacksize field holds s, from the
+           initial state: einval (nothing obtained) / ok / the arithmetic left its range *)
+        print_string (match create_stack oracle (zi 131072) s_init (ni 0) (zs s) with
+                      | CEinval -> "create 22 allocs 0"
+                      | CCreated (_, st') -> Printf.sprintf "create 0 allocs %d" (Stdlib.List.length st'.s_fl.fl_regs)
+                      | CFailed _ -> "create out-of-range")
      | "hist" :: _ :: ":" :: toks -> print_string (do_hist toks)
      | "shist" :: g :: d :: ":" :: toks -> print_string (do_shist (zs g) (zs d) toks)
      | "ledger" :: nw :: toks -> print_string (do_ledger (int_of_string nw) toks)
